@@ -343,7 +343,8 @@ Fixpoint bytes_prefix (p s : list Z) : bool :=
 
 Definition viss_metadata_line (ie : Z * entry) : list Z :=
   let m := e_meta (snd ie) in
-  [205; fst ie; kuksa_entry_type (m_etype m); kuksa_data_type (m_dtype m)] ++ enc_opt_val (m_allowed m).
+  [205; fst ie; kuksa_entry_type (m_etype m); kuksa_data_type (m_dtype m)] ++ enc_opt_val (m_allowed m)
+  ++ [1].                                            (* description as registered (flag set by the harness) *)
 
 Definition viss_metadata (st : state) (path : list Z) : list (list Z) :=
   let sel := filter (fun ie => bytes_prefix path (m_path (e_meta (snd ie)))) (entries (st_db st)) in
